@@ -1,0 +1,18 @@
+//go:build verif
+
+// Contracts for internal/nodemap (C20: rendering depends only on struct and schema).
+package nodemap
+
+// Switching the registry starts an empty index: no node cached under the previous registry can be
+// found afterwards.
+//@ func Map.UseRegistry
+//@   props C20
+//@   requires m != nil
+//@   ensures m.reg == reg
+//@   ensures emptyindex: m.nodes != nil && len(m.nodes) == 0
+
+//@ func Map.registry -> r
+//@   props C20
+//@   requires m != nil
+//@   ensures r != nil
+//@   ensures implies(m.reg != nil, r == m.reg)
